@@ -65,7 +65,7 @@ def run(P, R, tier):
     for mod, pred, new in PICK:
         if mod not in cache:
             sub, err = _common.sub_results(P, R, mod)       # shared with the forwards of the other modules (each module runs once per process)
-            if err is not None and not any(o.status == 'violated' for o in sub.obs):
+            if err is not None and not __import__('report').unlisted(sub.obs):
                 raise err
             cache[mod] = sub
         for o in cache[mod].obs:
